@@ -338,7 +338,9 @@ def postProcess (it : SimpleIter) (batch : List SPoint) : List SPoint :=
   let b := if it.opts.s2c then batch.map convertToCartesian else batch
   let b := if it.opts.c2s then b.map convertToSpherical else b
   let b := if it.opts.i2c then b.map convertIntensity else b
-  if it.opts.transform then b.map (transformPoint it.rotation it.translation) else b
+  -- without a pose there is nothing to apply (multiplying with the identity is not neutral for floats:
+  -- it turns -0.0 into 0.0 and finite values next to an infinite one into NaN)
+  if it.opts.transform && it.pc.transform.isSome then b.map (transformPoint it.rotation it.translation) else b
 
 /-- pop `n` raw points and view them; stops at the first point whose view fails
     (that point is consumed, the ones before it stay in the batch buffer) -/
